@@ -97,6 +97,11 @@ def make_case(seed, index, tier):
             adjust.append({'offset': rng.choice(GRID),
                            'how': rng.choice(['increase', 'decrease', 'set']),
                            'amounts': {rng.choice(fields): rng.randint(0, 3) * unit}})
+            if rng.random() < 0.4:
+                # several resources at once, possibly more than is there of some of them
+                adjust[-1]['amounts'] = {field: rng.choice([0, 1, 1, 2, 5, 9]) * unit
+                                         for field in fields if rng.random() < 0.8} or {
+                                             fields[0]: unit}
     return {'seed': seed, 'index': index, 'tier': tier,
             'scenario': {'kind': kind, 'supply': supply, 'users': users, 'adjust': adjust}}
 
@@ -352,6 +357,22 @@ def build_for(case):
                             top.supply[key] -= value
                         arena.log('adjust', 'decrease', op['amounts'])
                         await resource.decrease(**op['amounts'])
+                    elif __debug__:
+                        # more than is there of some (not necessarily all) of the resources:
+                        # refused as a whole. (Under -O nothing guards this usage error.)
+                        ledger.stats['decreases_below_zero_tried'] = ledger.stats.get(
+                            'decreases_below_zero_tried', 0) + 1
+                        try:
+                            await resource.decrease(**op['amounts'])
+                        except AssertionError:
+                            pass
+                        else:
+                            ledger.violation(
+                                'level-below-zero',
+                                'decrease(%s) with levels %s was carried out: levels now %s' % (
+                                    op['amounts'], levels, top.levels()))
+                            for key, value in op['amounts'].items():
+                                top.supply[key] -= value
                 else:
                     for key, value in op['amounts'].items():
                         top.supply[key] += value - levels[key]
